@@ -6,5 +6,5 @@ INVARIANT RejectionYieldsNothing
 INVARIANT RefinesRead
 CHECK_DEADLOCK FALSE
 CONSTANTS NLay = 3
- NameSet = {2, 5}
+ NameSet = {3, 6}
  MaxRej = 2
